@@ -86,7 +86,7 @@ fn classify(s: &str) -> String {
 ///      xk=c|s xo=<xref offset> [sid=<id> W=a/b/c idx=f/c[/f/c…] flt=0|1 rl=<raw> dl=<decoded>]
 ///      ents=<RLE of entries from object 0: f<next>:<gen> n<off>:<gen> c<stm>:<idx>, `*k` = k times> contig=0|1
 ///      size=<n> root=<n.g> info=<n.g> tkeys=<sorted keys> sx=<offset of `startxref`> eof=<offset of %%EOF> len=<n>
-///      stm=<id>:<N>:<First>:<num>/<off>+…;…|-  unres=<n.g of references that do not resolve>|-  cat=<0|1>  lib=<ok:pages|err:…>
+///      stm=<id>:<N>:<First>:<decoded length>:<num>/<off>+…;…|-  unres=<n.g of references that do not resolve>|-  cat=<0|1>  lib=<ok:pages|err:…>
 fn facts(bytes: &[u8]) -> String {
     let t0 = std::time::Instant::now();
     let sc = scan(bytes);
@@ -170,10 +170,11 @@ fn facts(bytes: &[u8]) -> String {
         .iter()
         .map(|st| {
             format!(
-                "{}:{}:{}:{}",
+                "{}:{}:{}:{}:{}",
                 st.id,
                 st.n,
                 st.first,
+                st.decoded_len,
                 st.members.iter().map(|(n, o, _)| format!("{}/{}", n, o)).collect::<Vec<_>>().join("+")
             )
         })
